@@ -222,6 +222,7 @@ def run(ctx):
                    nontrivial=lambda ln, m: m not in ("badinput",))
     run_accessors(ctx)
     run_floats(ctx)
+    run_decimals(ctx)
 
 
 ALL_ACC = ["BO", "SZ", "IV", "I6", "BI", "FL", "DE", "TS", "ST", "SY", "BY", "SI"]
@@ -329,6 +330,34 @@ def run_floats(ctx):
         t = g.split(" ")
         if len(t) < 6 or t[5] != "F%d" % w:
             ctx.fail("property", "C13-float", ln, "float bits %d written, read back as %s (a float may be stored in 32 bits only when that is lossless)" % (w, " ".join(t[3:7])))
+
+
+def run_decimals(ctx):
+    """decimal exponents and coefficients through the binary Writer: every exponent at the ends of the int32 range and at
+    the VarInt width boundaries, coefficients at the Int width boundaries; the independent decoder must recover both"""
+    import iongen
+    import binlib
+    rng = ctx.rng
+    exps = [-2 ** 31, -2 ** 31 + 1, 2 ** 31 - 1, 2 ** 31 - 2, 0, -1, 1, -63, -64, -65, 63, 64, 65, -8191, -8192, -8193, 8191, 8192,
+            -2 ** 20, 2 ** 20 - 1, 2 ** 20, -2 ** 27, 2 ** 27 - 1, 2 ** 27]
+    cos = [0, 1, -1, 127, 128, -128, 255, 256, 32767, 32768, 2 ** 63 - 1, 2 ** 63, -2 ** 63, 2 ** 64, 10 ** 30, -(10 ** 30)]
+    forests = [[([], ("dec", co, ex, False))] for ex in exps for co in cos] + [[([], ("dec", 0, ex, True))] for ex in exps]
+    for _ in range(ctx.scale(300, 6000)):
+        forests.append([([], ("dec", rng.choice(cos + [rng.getrandbits(rng.randint(1, 90))]) * rng.choice([1, -1]),
+                           rng.choice(exps + [rng.randint(-2 ** 31, 2 ** 31 - 1)]), False))])
+    lines = ["bw - " + " ".join(iongen.calls_of_forest(f, rng)) for f in forests]
+    mo, go = ctx.correspond("K3-decimal-write", lines, nontrivial=lambda ln, m: m.startswith("ok"))
+    parsed = [binlib.parse_bw(g) for g in go]
+    dec = binlib.sdecode_many([p[1] if p else "x" for p in parsed])
+    for ln, f, p, d, g in zip(lines, forests, parsed, dec, go):
+        if oracle_silent(ctx, "C13-decimal", ln, d):
+            continue
+        e = iongen.show_forest(f)
+        if p is None or "0" in p[0]:
+            ctx.fail("property", "C13-decimal", ln, "WriteDecimal refused or crashed: " + g[:160])
+        elif d != e:
+            ctx.fail("property", "C13-decimal", ln, "decimal written as %s but the bytes denote %s" % (e[:120], str(d)[:120]))
+    ctx.count("C13-decimal", len(lines), lines, sample=lines[0])
 
 
 def classify_case(line, m, g):
